@@ -17,37 +17,36 @@
 (* one state per descriptor assignment.                                    *)
 (***************************************************************************)
 EXTENDS JUnit, Json
-CONSTANTS MaxScen, FullUpTo, EmitMod
+CONSTANTS MaxScen, FullUpTo, EmitAllUpTo, EmitMod
 
 \* ---------------------------------------------------------------- scenario descriptors
-D(name, st, steps, hookmsg, hookraised, cleanup, dry) ==
-   [name |-> name, st |-> st, steps |-> steps, hookmsg |-> hookmsg, hookraised |-> hookraised, cleanup |-> cleanup, dry |-> dry]
-StepCause(x) == {D(x \o "1", IF x = "failed" THEN "failed" ELSE "error", <<x, "skipped">>, FALSE, x = "hook_error", FALSE, FALSE),
-                 D(x \o "2", IF x = "failed" THEN "failed" ELSE "error", <<"passed", x>>, FALSE, x = "hook_error", FALSE, FALSE)}
+D(ix, name, st, steps, hookmsg, hookraised, cleanup, dry) ==
+   [ix |-> ix, name |-> name, st |-> st, steps |-> steps, hookmsg |-> hookmsg, hookraised |-> hookraised, cleanup |-> cleanup, dry |-> dry]
+StepCause(ix, x) == {D(ix, x \o "1", IF x = "failed" THEN "failed" ELSE "error", <<x, "skipped">>, FALSE, x = "hook_error", FALSE, FALSE),
+                     D(ix + 1, x \o "2", IF x = "failed" THEN "failed" ELSE "error", <<"passed", x>>, FALSE, x = "hook_error", FALSE, FALSE)}
 CoreDescs == {
-   D("pass", "passed", <<"passed", "passed">>, FALSE, FALSE, FALSE, FALSE),
-   D("failed1", "failed", <<"failed", "skipped">>, FALSE, FALSE, FALSE, FALSE),
-   D("error2", "error", <<"passed", "error">>, FALSE, FALSE, FALSE, FALSE),
-   D("undefined1", "error", <<"undefined", "skipped">>, FALSE, FALSE, FALSE, FALSE),
-   D("hook_error1", "error", <<"hook_error", "skipped">>, FALSE, TRUE, FALSE, FALSE),
-   D("cl", "error", <<"passed", "passed">>, FALSE, FALSE, TRUE, FALSE),                  \* only a cleanup raised
-   D("cl_failed1", "error", <<"failed", "skipped">>, FALSE, FALSE, TRUE, FALSE),         \* failed step, then the cleanup raised
-   D("hk_before", "hook_error", <<"untested", "untested">>, TRUE, TRUE, FALSE, FALSE),   \* before_scenario / before_tag raised
-   D("hk_after_failed1", "hook_error", <<"failed", "skipped">>, TRUE, TRUE, FALSE, FALSE),
-   D("skip", "skipped", <<"skipped", "skipped">>, FALSE, FALSE, FALSE, FALSE),
-   D("untested", "untested", <<"untested", "untested">>, FALSE, FALSE, FALSE, FALSE),
-   D("dry_undefined2", "untested", <<"untested", "undefined">>, FALSE, FALSE, FALSE, TRUE) }
+   D(1, "pass", "passed", <<"passed", "passed">>, FALSE, FALSE, FALSE, FALSE),
+   D(2, "failed1", "failed", <<"failed", "skipped">>, FALSE, FALSE, FALSE, FALSE),
+   D(3, "undefined1", "error", <<"undefined", "skipped">>, FALSE, FALSE, FALSE, FALSE),
+   D(4, "cl", "error", <<"passed", "passed">>, FALSE, FALSE, TRUE, FALSE),                  \* only a cleanup raised
+   D(5, "hk_before", "hook_error", <<"untested", "untested">>, TRUE, TRUE, FALSE, FALSE),   \* before_scenario / before_tag raised
+   D(6, "skip", "skipped", <<"skipped", "skipped">>, FALSE, FALSE, FALSE, FALSE),
+   D(7, "untested", "untested", <<"untested", "untested">>, FALSE, FALSE, FALSE, FALSE),
+   D(8, "dry_undefined2", "untested", <<"untested", "undefined">>, FALSE, FALSE, FALSE, TRUE) }
+StepCauses == StepCause(31, "failed") \cup StepCause(33, "error") \cup StepCause(35, "undefined") \cup StepCause(37, "pending") \cup StepCause(39, "hook_error")
 AllDescs == CoreDescs
-   \cup UNION {StepCause(x) : x \in {"failed", "error", "undefined", "pending", "hook_error"}}
-   \cup { D("cl_failed2", "error", <<"passed", "failed">>, FALSE, FALSE, TRUE, FALSE),
-          D("cl_error1", "error", <<"error", "skipped">>, FALSE, FALSE, TRUE, FALSE),    \* an errored step exists: no crash
-          D("hk_after", "hook_error", <<"passed", "passed">>, TRUE, TRUE, FALSE, FALSE),
-          D("hk_after_failed2", "hook_error", <<"passed", "failed">>, TRUE, TRUE, FALSE, FALSE),
-          D("hk_after_error2", "hook_error", <<"passed", "error">>, TRUE, TRUE, FALSE, FALSE),
-          D("hk_cl", "error", <<"passed", "passed">>, TRUE, TRUE, TRUE, FALSE),           \* hook raised, then the cleanup
-          D("skip_by_step", "skipped", <<"passed", "skipped">>, FALSE, FALSE, FALSE, FALSE),
-          D("pending_warn", "passed", <<"pending_warn", "passed">>, FALSE, FALSE, FALSE, FALSE),
-          D("dry_undefined1", "error", <<"undefined", "untested">>, FALSE, FALSE, FALSE, TRUE) }
+   \cup {d \in StepCauses : d.name \notin {c.name : c \in CoreDescs}}
+   \cup { D(9, "cl_failed1", "error", <<"failed", "skipped">>, FALSE, FALSE, TRUE, FALSE),  \* failed step, then the cleanup raised
+          D(10, "cl_failed2", "error", <<"passed", "failed">>, FALSE, FALSE, TRUE, FALSE),
+          D(11, "cl_error1", "error", <<"error", "skipped">>, FALSE, FALSE, TRUE, FALSE),    \* an errored step exists: no crash
+          D(12, "hk_after", "hook_error", <<"passed", "passed">>, TRUE, TRUE, FALSE, FALSE),
+          D(13, "hk_after_failed1", "hook_error", <<"failed", "skipped">>, TRUE, TRUE, FALSE, FALSE),
+          D(14, "hk_after_failed2", "hook_error", <<"passed", "failed">>, TRUE, TRUE, FALSE, FALSE),
+          D(15, "hk_after_error2", "hook_error", <<"passed", "error">>, TRUE, TRUE, FALSE, FALSE),
+          D(16, "hk_cl", "error", <<"passed", "passed">>, TRUE, TRUE, TRUE, FALSE),           \* hook raised, then the cleanup
+          D(17, "skip_by_step", "skipped", <<"passed", "skipped">>, FALSE, FALSE, FALSE, FALSE),
+          D(18, "pending_warn", "passed", <<"pending_warn", "passed">>, FALSE, FALSE, FALSE, FALSE),
+          D(19, "dry_undefined1", "error", <<"undefined", "untested">>, FALSE, FALSE, FALSE, TRUE) }
 DescsFor(w) == IF w <= FullUpTo THEN AllDescs ELSE CoreDescs
 
 \* ---------------------------------------------------------------- shapes
@@ -155,8 +154,8 @@ Conservation == ph = "case" => \A show \in BOOLEAN : LET o == Repaired(show) IN
 WalkIsDocOrder == ph = "case" => Walk(m, F, 1) = DocScenarios(m, F)
 
 RECURSIVE Hash(_,_)
-Hash(q, k) == IF k > Len(q) THEN 0 ELSE (Len(q[k].name) + 3 * k) * k + Hash(q, k + 1)
-EmitThis == Weight(sh) <= 1 \/ (Hash(ds, 1) + 7 * Len(sh)) % EmitMod = 0
+Hash(q, k) == IF k > Len(q) THEN 0 ELSE q[k].ix * (7 * k * k + 3) + Hash(q, k + 1)
+EmitThis == Weight(sh) <= EmitAllUpTo \/ (Hash(ds, 1) + 13 * Len(sh)) % EmitMod = 0
 Pred(show) == LET o == Code(show) IN
    [crashed |-> o.crashed, exists |-> o.doc.exists, tests |-> o.doc.tests, failures |-> o.doc.failures, errors |-> o.doc.errors,
     skipped |-> o.doc.skipped, cases |-> o.doc.cases, clauses |-> {v[1] : v \in ClausesOf(show, o)}]
